@@ -688,4 +688,117 @@ def runCalls (s : State) : List (Call × Option Nat × Nat) → State × List Re
 
 end Cache
 
+/-! ## `hardlinkingFileFetcher` (non-virtual workers: `naiveBuildDirectory`)
+
+`pkg/cas/hardlinking_file_fetcher.go`. `entries` = `filesSize` in the LRU order of the
+eviction set (head = next victim); `disk` = what is in the cache directory (the
+worker is not the only one who can change it: `Fault`). A key stands for digest +
+executable bit; a regular file carries a content tag (the key whose contents it
+has). Calls are sequential (`naiveBuildDirectory` serialises them with the file
+fetcher semaphore in the harness; the `downloads` map only serialises callers).
+
+File system assumption (explicit): `link(2)` from the cache succeeds iff the cache
+entry is a regular file, fails with `ENOENT` iff it is absent and with another
+error if it is a directory; linking *into* the cache fails with `EEXIST` iff
+something is there; `Remove` removes a file or an empty directory. -/
+namespace HardLink
+
+inductive Entry
+  | file (content : Nat)
+  | dir
+deriving DecidableEq, Repr, Inhabited
+
+structure State where
+  maxFiles : Nat
+  maxSize : Nat
+  entries : List (Nat × Nat)      -- key, accounted size
+  disk : List (Nat × Entry)       -- cache directory
+deriving Repr
+
+def total (es : List (Nat × Nat)) : Nat := (es.map (·.2)).sum
+
+def known (es : List (Nat × Nat)) (k : Nat) : Bool := es.any (·.1 == k)
+
+def onDisk (d : List (Nat × Entry)) (k : Nat) : Option Entry := (d.find? (·.1 == k)).map (·.2)
+
+def diskRemove (d : List (Nat × Entry)) (k : Nat) : List (Nat × Entry) := d.filter (·.1 != k)
+
+/-- `evictionSet.Touch`. -/
+def touch (es : List (Nat × Nat)) (k : Nat) : List (Nat × Nat) :=
+  match es.find? (·.1 == k) with
+  | none => es
+  | some e => es.filter (·.1 != k) ++ [e]
+
+inductive LinkResult
+  | linked (content : Nat)   -- the target now is a hard link of the cache file
+  | notExist                 -- `os.ErrNotExist`
+  | failed                   -- codes.Internal
+deriving DecidableEq, Repr
+
+/-- `tryLinkFromCache`. -/
+def tryLink (s : State) (k : Nat) : State × LinkResult :=
+  if known s.entries k then
+    let s' := { s with entries := touch s.entries k }
+    match onDisk s.disk k with
+    | some (.file c) => (s', .linked c)
+    | none => (s', .notExist)
+    | some .dir => (s', .failed)
+  else (s, .notExist)
+
+/-- `makeSpace`: evict from the head while there are too many files or bytes;
+`Remove` of a cache entry never fails under the file system assumption. -/
+def makeSpace (maxFiles maxSize size : Nat) :
+    List (Nat × Nat) → List (Nat × Entry) → List (Nat × Nat) × List (Nat × Entry)
+  | [], d => ([], d)
+  | e :: rest, d =>
+    if (e :: rest).length ≥ maxFiles || total (e :: rest) + size > maxSize then
+      makeSpace maxFiles maxSize size rest (diskRemove d e.1)
+    else (e :: rest, d)
+
+inductive Result
+  | ok (content : Nat)   -- GetFile returned nil; the target has these contents
+  | okMissing            -- GetFile returned nil without a target (never, see theorems)
+  | error
+deriving DecidableEq, Repr
+
+/-- `GetFile` of key `k` (accounted size `size`); `casHas`: the base fetcher can
+download it. -/
+def getFile (s : State) (k size : Nat) (casHas : Bool) : State × Result :=
+  match tryLink s k with
+  | (s1, .linked c) => (s1, .ok c)
+  | (s1, .failed) => (s1, .error)
+  | (s1, .notExist) =>
+    -- no other download in progress; the second look at the cache
+    match tryLink s1 k with
+    | (s2, .linked c) => (s2, .ok c)
+    | (s2, .failed) => (s2, .error)
+    | (s2, .notExist) =>
+      if !casHas then (s2, .error)
+      else
+        -- downloaded to the target: contents of `k`
+        if !known s2.entries k then
+          let r := makeSpace s2.maxFiles s2.maxSize size s2.entries s2.disk
+          -- link target -> cache; EEXIST is tolerated
+          let disk' := match onDisk r.2 k with
+            | some _ => r.2
+            | none => r.2 ++ [(k, .file k)]
+          ({ s2 with entries := r.1 ++ [(k, size)], disk := disk' }, .ok k)
+        else
+          -- in the bookkeeping but missing: repair
+          let disk' := match onDisk s2.disk k with
+            | some _ => s2.disk
+            | none => s2.disk ++ [(k, .file k)]
+          ({ s2 with disk := disk' }, .ok k)
+
+/-- What happens to the cache directory behind the worker's back. -/
+inductive Fault
+  | remove (k : Nat)   -- a cleaner deletes the entry
+  | mkdir (k : Nat)    -- the entry is replaced by a directory
+
+def fault (s : State) : Fault → State
+  | .remove k => { s with disk := diskRemove s.disk k }
+  | .mkdir k => { s with disk := diskRemove s.disk k ++ [(k, .dir)] }
+
+end HardLink
+
 end BbRe.InputRoot
